@@ -41,10 +41,17 @@ def write_srecord(obj, f):
     data = obj.get_section("code").data
     record = SRecord(0, 0, b"HDR")
     print(record.to_line(), file=f)
+    # Use the narrowest address field that can hold all addresses:
+    if len(data) <= 0x10000:
+        data_typ, end_typ = 1, 9
+    elif len(data) <= 0x1000000:
+        data_typ, end_typ = 2, 8
+    else:
+        data_typ, end_typ = 3, 7
     address = 0
     for chunk in chunks(data):
-        record = SRecord(1, address, chunk)
+        record = SRecord(data_typ, address, chunk)
         print(record.to_line(), file=f)
         address += len(chunk)
-    record = SRecord(9, 0, bytes())
+    record = SRecord(end_typ, 0, bytes())
     print(record.to_line(), file=f)
